@@ -480,6 +480,46 @@ impl World {
         }
     }
 
+    /// Which holder commitment does a released funding signature belong to?  Verified against the
+    /// commitment transactions built here for the numbers around the counter and every content; the request's
+    /// own number is not trusted.
+    fn attribute_holder_sig(&mut self, sig: &Signature, requested: u64, via: &str) -> u64 {
+        use lightning_signer::lightning::ln::chan_utils::make_funding_redeemscript;
+        let next = self.estate().map(|e| e.next_holder_commit_num).unwrap_or(0);
+        let (nc, cc) = (self.node_ctx(), self.chan_ctx());
+        let mut cands: Vec<u64> = vec![requested];
+        for n in next.saturating_sub(3)..=next + 1 {
+            if n != requested {
+                cands.push(n);
+            }
+        }
+        for n in cands {
+            if self.node.with_channel(&self.channel_id, |ch| ch.get_per_commitment_point(n)).is_err() {
+                continue;
+            }
+            for c in all_contents() {
+                let (th, tc) = content(c);
+                let ctx = channel_commitment(&nc, &cc, n, content_feerate(c), th, tc, vec![], htlcs_of(c));
+                let ok = self
+                    .node
+                    .with_channel(&self.channel_id, |chan| {
+                        let redeem = make_funding_redeemscript(&chan.keys.pubkeys().funding_pubkey, &chan.counterparty_pubkeys().funding_pubkey);
+                        let sighash = ctx.tx.as_ref().unwrap().trust().built_transaction().get_sighash_all(&redeem, cc.setup.channel_value_sat);
+                        Ok(self.secp.verify_ecdsa(&sighash, sig, &chan.keys.pubkeys().funding_pubkey).is_ok())
+                    })
+                    .unwrap_or(false);
+                if ok {
+                    if n != requested {
+                        self.tags.insert("holder-sig:other-number".into());
+                    }
+                    return n;
+                }
+            }
+        }
+        self.violation("c02-signed-unknown-tx", format!("{}: the returned signature fits none of the candidate holder commitments (asked for {})", via, requested));
+        requested
+    }
+
     fn on_holder_sig(&mut self, n: u64, via: &str) {
         if self.mon.revoked.contains(&n) {
             self.violation("c02-signed-and-revoked", format!("{} released a holder signature on commitment {} whose secret was disclosed earlier", via, n));
@@ -882,7 +922,8 @@ impl World {
                 "signholder" => {
                     let n = num(1);
                     match self.node.with_channel(&self.channel_id, |chan| chan.sign_holder_commitment_tx_phase2(n)) {
-                        Ok(_) => {
+                        Ok(sig) => {
+                            let n = self.attribute_holder_sig(&sig, n, "sign_holder_commitment_tx_phase2");
                             self.on_holder_sig(n, "sign_holder_commitment_tx_phase2");
                             Ok(format!("ok signed={}", n))
                         }
@@ -930,7 +971,8 @@ impl World {
                     let (n, c) = (num(1), num(2));
                     let (th, tc) = content(c);
                     match self.node.with_channel(&self.channel_id, |chan| chan.sign_holder_commitment_tx_phase2_redundant(n, content_feerate(c), th, tc, vec![], htlcs_of(c))) {
-                        Ok(_) => {
+                        Ok(sig) => {
+                            let n = self.attribute_holder_sig(&sig, n, "sign_holder_commitment_tx_phase2_redundant");
                             self.on_holder_sig(n, "sign_holder_commitment_tx_phase2_redundant");
                             Ok(format!("ok signed={}", n))
                         }
@@ -1127,7 +1169,14 @@ impl World {
                     let (ver, n) = (num(1) as u32, num(2));
                     let h = self.handler(ver);
                     match h.handle(Message::SignLocalCommitmentTx2(msgs::SignLocalCommitmentTx2 { commitment_number: n })) {
-                        Ok(_) => {
+                        Ok(rep) => {
+                            let n = match self.reply(rep) {
+                                Message::SignCommitmentTxReply(r) => match Signature::from_compact(&r.signature.signature.0) {
+                                    Ok(sig) => self.attribute_holder_sig(&sig, n, "SignLocalCommitmentTx2"),
+                                    Err(_) => n,
+                                },
+                                _ => n,
+                            };
                             self.on_holder_sig(n, "SignLocalCommitmentTx2");
                             Ok(format!("ok signed={}", n))
                         }
@@ -1155,7 +1204,14 @@ impl World {
                         commitment_number: n,
                     };
                     match root.handle(Message::SignCommitmentTx(m)) {
-                        Ok(_) => {
+                        Ok(rep) => {
+                            let n = match self.reply(rep) {
+                                Message::SignCommitmentTxReply(r) => match Signature::from_compact(&r.signature.signature.0) {
+                                    Ok(sig) => self.attribute_holder_sig(&sig, n, "SignCommitmentTx"),
+                                    Err(_) => n,
+                                },
+                                _ => n,
+                            };
                             self.on_holder_sig(n, "SignCommitmentTx");
                             Ok(format!("ok signed={}", n))
                         }
